@@ -300,7 +300,7 @@ theorem world_step_sim (m : Mode) (w : World) (b : Book) (e : Ev) (hw : w.WF) (h
     · exact hk p hp
     · simp at hp; subst hp; exact ⟨rfl, h⟩
   cases e with
-  | connect =>
+  | connect named =>
     refine ⟨⟨?_, ?_⟩, ⟨?_, ?_⟩, ?_⟩
     · simp [World.step, List.range_succ]
     · intro p hp; obtain ⟨h1, h2⟩ := hk p (by simpa [World.step] using hp)
